@@ -174,9 +174,11 @@ func (fv *FuncVC) doStreamAppend(r, d, x Term, xv ssa.Value, pos token.Pos) {
 	if fv.cborBuild() {
 		vm = fv.cborAfterValue(g1(d))
 	}
-	set(fmt.Sprintf("(ite %s %s (ite %s %s (ite %s %d (ite %s %d 0))))", inString, g1(d), whole, vm, members, mOBJNEXT, list, mARRNEXT),
-		g2(d),
-		fmt.Sprintf("(ite %s 1 0)", inString))
+	// copying a buffer into an empty one keeps the source's ghosts
+	intoEmpty := smtAnd(app("=", fv.lenOf(d), fv.ilit(0)), app("=", g1(d), fmt.Sprint(mTOP)), app("=", g2(d), "1"), app("=", g3(d), "0"))
+	set(fmt.Sprintf("(ite %s %s (ite %s %s (ite %s %s (ite %s %d (ite %s %d 0)))))", intoEmpty, g1(x), inString, g1(d), whole, vm, members, mOBJNEXT, list, mARRNEXT),
+		fmt.Sprintf("(ite %s %s %s)", intoEmpty, g2(x), g2(d)),
+		fmt.Sprintf("(ite %s %s (ite %s 1 0))", intoEmpty, g3(x), inString))
 }
 
 // cborAfterValue: token-level successor mode for one complete data item.
